@@ -39,14 +39,16 @@ ASSUMPTIONS = [
 CHUNK = 20
 EPS_SEEN = []
 _orig_mfr = None
+_orig_dmfr = None
 
 
 def worker_init():
     """record the eps the algorithm passes to max_feasible_rate (harness-side wrapper)"""
-    global _orig_mfr
+    global _orig_mfr, _orig_dmfr
     if _orig_mfr is not None:
         return
     _orig_mfr = SortedSchedulingAlgo.__dict__["max_feasible_rate"].__func__
+    _orig_dmfr = SortedSchedulingAlgo.__dict__["discrete_max_feasible_rate"].__func__
 
     def wrapped(station_index, ub, schedule, infrastructure, eps=0.0001, lb=0.0):
         EPS_SEEN.append(eps)
@@ -142,6 +144,39 @@ def run_mfr(item):
                     if not np.array_equal(sched, before):
                         viol.append(("max_feasible_rate:schedule-mutated", "max_feasible_rate changed the caller's schedule vector", sched.tolist(), before.tolist()))
                         break
+            # the discrete helper: the largest level of the list it is handed that is feasible next to the granted
+            # rates, 0 if none is (the greedy algorithm hands it the station's levels between the session's bounds)
+            lv = ref.levels(st) or [0.0, 6.0, 12.0, 18.0, 24.0, 30.0]
+            for lo, hi in ((0.0, 1e9), (7.0, 1e9), (lv[1], lv[-1] - 1.0), (lv[-1], 1e9)):
+                levels = [float(l) for l in lv if lo <= l <= hi]
+                if not levels:
+                    continue
+                want, decided = 0.0, True
+                for l in reversed(levels):
+                    trial = dict(x)
+                    trial[st] = l
+                    ok_l, m_l = ref.feasible(trial)
+                    if m_l < 1e-6:
+                        decided = False
+                        break
+                    if ok_l:
+                        want = l
+                        break
+                if not decided:
+                    continue
+                sched = np.array([x[s_] for s_ in ids], dtype=float)
+                before = sched.copy()
+                n += 1
+                got = float(_orig_dmfr(i, list(levels), sched, info))
+                outs.add((item["net"], "discrete", want > 0, levels[0] > 0))
+                if want < levels[-1]:
+                    nt.add((item["net"], st, grants, tuple(levels)))
+                if abs(got - want) > 1e-9:
+                    viol.append(("discrete_max_feasible_rate:%s" % ("no-level-fits" if want == 0.0 and levels[0] > 0 else "not-the-largest-feasible-level"), "%s: discrete_max_feasible_rate(%s, levels %s, granted %s) = %r, the largest feasible level is %r" % (item["net"], st, levels, x, got, want), got, want))
+                    break
+                if not np.array_equal(sched, before):
+                    viol.append(("discrete_max_feasible_rate:schedule-mutated", "discrete_max_feasible_rate changed the caller's schedule vector", sched.tolist(), before.tolist()))
+                    break
             if len(viol) > 5:
                 return viol, n, nt, outs
     return viol, n, nt, outs
